@@ -29,8 +29,8 @@ type c18Http struct {
 	body   string
 	readOK bool
 	// derived facts handed to the model
-	custom         string // verdict of the custom checker ("-" = none installed)
-	jsonOK, xmlOK  bool
+	custom        string // verdict of the custom checker ("-" = none installed)
+	jsonOK, xmlOK bool
 }
 
 type c18TOut struct {
@@ -46,19 +46,19 @@ type c18Act struct {
 }
 
 type c18Scenario struct {
-	entry                                                   byte // d s v m
-	builderErr, unreplayable, sT, eT, cE, autoRead, hook    bool
-	udReq                                                   [][]c18Act
-	builtin                                                 []bool // true = fails
-	wrappers                                                [][]c18Act
-	getBody                                                 []bool
-	transport                                               []c18TOut
-	clientResp                                              [][]c18Act
-	reqResp                                                 [][]c18Act
-	maxRetries                                              int
-	conds                                                   []bool // nil = default rule
-	checker                                                 c18Checker
-	verb                                                    int
+	entry                                                byte // d s v m
+	builderErr, unreplayable, sT, eT, cE, autoRead, hook bool
+	udReq                                                [][]c18Act
+	builtin                                              []bool // true = fails
+	wrappers                                             [][]c18Act
+	getBody                                              []bool
+	transport                                            []c18TOut
+	clientResp                                           [][]c18Act
+	reqResp                                              [][]c18Act
+	maxRetries                                           int
+	conds                                                []bool // nil = default rule
+	checker                                              c18Checker
+	verb                                                 int
 }
 
 var c18ErrGetBody = errors.New("c18 GetBody failure")
@@ -376,9 +376,10 @@ func c18Run(sc *c18Scenario) *c18Obs {
 	c.beforeRequest = append(c.beforeRequest, func(*Client, *Request) error { ev("b"); return nil })
 	// wrapping round-trippers
 	fresh := map[*Response]bool{}
+	var wfuncs []RoundTripWrapperFunc
 	for i := range sc.wrappers {
 		i := i
-		c.WrapRoundTripFunc(func(rt RoundTripper) RoundTripFunc {
+		wfuncs = append(wfuncs, func(rt RoundTripper) RoundTripFunc {
 			return func(r *Request) (*Response, error) {
 				ev("w" + strconv.Itoa(i))
 				act := c18At(sc.wrappers[i], att(), c18Act{kind: "p"})
@@ -416,6 +417,23 @@ func c18Run(sc *c18Scenario) *c18Obs {
 				return rt.RoundTrip(r)
 			}
 		})
+	}
+	// registration: one call per wrapper, one call for all, or WrapRoundTrip with a split list
+	switch sc.verb % 3 {
+	case 0:
+		for _, w := range wfuncs {
+			c.WrapRoundTripFunc(w)
+		}
+	case 1:
+		c.WrapRoundTripFunc(wfuncs...)
+	default:
+		var ws []RoundTripWrapper
+		for _, w := range wfuncs {
+			ws = append(ws, w.wrapper())
+		}
+		k := len(ws) / 2
+		c.WrapRoundTrip(ws[:k]...)
+		c.WrapRoundTrip(ws[k:]...)
 	}
 	// user client-level response middleware
 	for i := range sc.clientResp {
@@ -579,9 +597,15 @@ func (o *c18Obs) answer(sc *c18Scenario) string {
 		return "ret resp=nil err=" + c18PipeErrName(o.err) + " hooks=" + strconv.Itoa(o.hooks) + " log=" + log
 	}
 	r := o.resp
-	tag, st, state := "-", "-", "U"
+	tag, st := "-", "-"
 	if r.Response != nil {
-		tag, st, state = r.Header.Get("X-Tag"), strconv.Itoa(r.StatusCode), c18StateName(r.ResultState())
+		tag, st = r.Header.Get("X-Tag"), strconv.Itoa(r.StatusCode)
+	}
+	// the state as the caller's predicates report it (must be consistent with ResultState)
+	state := c18StateName(r.ResultState())
+	switch isS, isE := r.IsSuccessState(), r.IsErrorState(); {
+	case isS != (state == "S") || isE != (state == "E"):
+		state = "inconsistent(" + state + "," + c18b(isS) + "," + c18b(isE) + ")"
 	}
 	es := "-"
 	switch v := r.ErrorResult().(type) {
@@ -813,23 +837,26 @@ func (o *c18Obs) orderOracle(sc *c18Scenario) string {
 
 var c18FixClasses = []string{"c10-afterresponse-overwrites-err", "c10-nil-resp-retry", "c18-digest-stale-binding"}
 
-// c18Classify returns, for the cases whose implementation answer differs from the repaired
-// model, the class of the known defect that explains the difference exactly ("" = none).
-func c18Classify(scs []*c18Scenario, impl []string) ([]string, error) {
+// c18Classify asks the model (repaired code, fixes 111) about every case and, for the cases
+// where the implementation differs, asks again for the code as found, fix by fix. It returns
+// the repaired model's answers and, per case, the most-repaired variant that reproduces the
+// implementation's answer exactly ("" = none does) with the class of the first missing fix.
+func c18Classify(scs []*c18Scenario, impl []string) (model, variant, class []string, err error) {
 	lines := make([]string, len(scs))
 	for i, sc := range scs {
 		lines[i] = sc.line("111")
 	}
-	ans, err := verifh.RunModel(lines)
+	model, err = verifh.RunModel(lines)
 	if err != nil {
-		return nil, err
+		return
 	}
-	class := make([]string, len(scs))
+	class = make([]string, len(scs))
+	variant = make([]string, len(scs))
 	var qi []int
 	var q []string
 	variants := []string{"011", "101", "110", "001", "010", "100", "000"}
 	for i := range scs {
-		if ans[i] != impl[i] {
+		if model[i] != impl[i] {
 			for _, v := range variants {
 				q = append(q, scs[i].line(v))
 			}
@@ -837,15 +864,17 @@ func c18Classify(scs []*c18Scenario, impl []string) ([]string, error) {
 		}
 	}
 	if len(q) == 0 {
-		return class, nil
+		return
 	}
-	ans2, err := verifh.RunModel(q)
-	if err != nil {
-		return nil, err
+	ans2, err2 := verifh.RunModel(q)
+	if err2 != nil {
+		err = err2
+		return
 	}
 	for k, i := range qi {
 		for j, v := range variants { // most-repaired variants first
 			if ans2[k*len(variants)+j] == impl[i] {
+				variant[i] = v
 				for b := 0; b < 3; b++ {
 					if v[b] == '0' {
 						class[i] = c18FixClasses[b]
@@ -856,7 +885,7 @@ func c18Classify(scs []*c18Scenario, impl []string) ([]string, error) {
 			}
 		}
 	}
-	return class, nil
+	return
 }
 
 // ---------------------------------------------------------------------------------------
@@ -1004,8 +1033,98 @@ func c18GenStack(r *rand.Rand) *c18Scenario {
 	return sc
 }
 
+// c18GenStale: directed pattern "an attempt that binds a result, a retry, then a request
+// middleware (or the built-in block) failing on the retry" — the response of the previous
+// attempt is returned with its slots cleared.
+func c18GenStale(r *rand.Rand) *c18Scenario {
+	sc := &c18Scenario{entry: "dsvm"[r.Intn(4)], sT: true, eT: r.Intn(2) == 0, cE: r.Intn(2) == 0,
+		autoRead: r.Intn(4) != 0, hook: true, verb: r.Intn(7), checker: c18Checkers[0], maxRetries: 1 + r.Intn(2)}
+	natt := sc.maxRetries + 1
+	sc.conds = make([]bool, natt)
+	for i := range sc.conds {
+		sc.conds[i] = true
+	}
+	failAt := 1 + r.Intn(sc.maxRetries)
+	for a := 0; a < natt; a++ {
+		h := &c18Http{status: []int{200, 201, 404, 500}[r.Intn(4)], ct: "application/json", body: c18Bodies[r.Intn(3)], readOK: true}
+		c18Facts(h, sc.checker)
+		sc.transport = append(sc.transport, c18TOut{fail: -1, h: h})
+	}
+	if r.Intn(2) == 0 {
+		st := make([]c18Act, natt)
+		for a := range st {
+			st[a] = c18Act{kind: "o"}
+		}
+		st[failAt] = c18Act{kind: "f", e: c18GenErr(r)}
+		sc.udReq = [][]c18Act{st}
+	} else {
+		sc.builtin = make([]bool, natt)
+		sc.builtin[failAt] = true
+	}
+	if r.Intn(2) == 0 {
+		sc.clientResp = [][]c18Act{make([]c18Act, natt)}
+		for a := range sc.clientResp[0] {
+			sc.clientResp[0][a] = c18Act{kind: "n"}
+		}
+	}
+	return sc
+}
+
 func c18Human(sc *c18Scenario, impl string) string {
 	return sc.line("111")[8:] + " checker=" + sc.checker.name + " => " + impl
+}
+
+// c18ModelBuckets: histogram buckets derived from the MODEL's answer (what the repaired code
+// does on the case) — the buckets a lane insists on must not depend on the implementation
+// under test, or a defect that makes one unreachable would look like a broken check.
+func c18ModelBuckets(hist *c18Hist, sc *c18Scenario, ans string) {
+	f := map[string]string{}
+	for _, kv := range strings.Fields(ans) {
+		if i := strings.IndexByte(kv, '='); i > 0 {
+			f[kv[:i]] = kv[i+1:]
+		}
+	}
+	hist.Count("entry=" + string(sc.entry))
+	if f["log"] == "-" {
+		hist.Count("attempts=0")
+	} else {
+		hist.Count("attempts=" + strconv.Itoa(strings.Count(f["log"], "|")+1))
+	}
+	switch {
+	case strings.HasPrefix(ans, "crash"):
+		hist.Count("out=crash")
+	case strings.HasPrefix(ans, "must"):
+		hist.Count("out=mustpanic")
+	case f["err"] != "-":
+		hist.Count("out=err:" + strings.TrimRight(f["err"], "0123456789"))
+	default:
+		hist.Count("out=ok")
+	}
+	if f["res"] == "1" {
+		hist.Count("bound=success")
+	}
+	if f["eslot"] == "R" || f["eslot"] == "C" {
+		hist.Count("bound=error" + f["eslot"])
+	}
+	if h, ok := f["http"]; ok {
+		if h == "-" {
+			hist.Count("final=nohttp")
+		} else {
+			hist.Count("final=" + f["state"])
+			if f["status"] == "204" {
+				hist.Count("final=204")
+			}
+			if n, _ := strconv.Atoi(h); n%2 == 1 {
+				hist.Count("digest-resent")
+			}
+		}
+	}
+	if f["hooks"] == "1" {
+		hist.Count("hook=1")
+	}
+	if strings.Contains(f["log"], ".j") || strings.Contains(f["log"], ".x") {
+		hist.Count("unmarshalled")
+	}
 }
 
 func c18RunLane(t *testing.T, s *verifh.Session, hist *c18Hist, scs []*c18Scenario) {
@@ -1015,65 +1134,56 @@ func c18RunLane(t *testing.T, s *verifh.Session, hist *c18Hist, scs []*c18Scenar
 		o := c18Run(sc)
 		impl[i] = o.answer(sc)
 		verdict[i] = o.oracle(sc)
-		// histogram
-		hist.Count("entry=" + string(sc.entry))
-		hist.Count("attempts=" + strconv.Itoa(len(o.logs)))
-		switch {
-		case o.crashed != "":
-			hist.Count("out=crash")
-		case o.mustPanicked:
-			hist.Count("out=mustpanic")
-		case o.resp != nil && o.resp.Err != nil:
-			hist.Count("out=err:" + strings.SplitN(strings.TrimRight(c18PipeErrName(o.resp.Err), "0123456789"), "(", 2)[0])
-		default:
-			hist.Count("out=ok")
-		}
-		if o.resp != nil {
-			if o.resp.SuccessResult() != nil {
-				hist.Count("bound=success")
+		if o.resp != nil && o.resp.Response != nil {
+			if f := o.facts[o.resp.Header.Get("X-Tag")]; f != nil {
+				hist.Count("ct=" + c18CtClass(f.ct))
 			}
-			switch o.resp.ErrorResult().(type) {
-			case *c18E:
-				hist.Count("bound=errorR")
-			case *c18C:
-				hist.Count("bound=errorC")
-			}
-			if o.resp.Response != nil {
-				hist.Count("final=" + c18StateName(o.resp.ResultState()))
-				if o.resp.StatusCode == 204 {
-					hist.Count("final=204")
-				}
-				if f := o.facts[o.resp.Header.Get("X-Tag")]; f != nil {
-					hist.Count("ct=" + c18CtClass(f.ct))
-				}
-				if strings.HasSuffix(o.resp.Header.Get("X-Tag"), "1") || strings.HasSuffix(o.resp.Header.Get("X-Tag"), "3") {
-					hist.Count("digest-resent")
-				}
-			} else {
-				hist.Count("final=nohttp")
-			}
-		}
-		if o.hooks > 0 {
-			hist.Count("hook=1")
 		}
 	}
-	class, err := c18Classify(scs, impl)
+	model, variant, class, err := c18Classify(scs, impl)
 	if err != nil {
 		t.Fatalf("driver: %v -- treat as: no tests to run", err)
 	}
-	for i, sc := range scs {
-		if class[i] != "" {
-			hist.Count("known:" + class[i])
-		}
-		if verdict[i] != "" && class[i] == "" {
-			hist.Count("oracle-reject")
-		}
+	emit := func(i int, line, cls string, ok bool) {
+		sc := scs[i]
 		human := c18Human(sc, impl[i])
 		if verdict[i] != "" {
 			human += " ORACLE: " + verdict[i]
 		}
 		nontriv := !sc.builderErr && !strings.HasPrefix(impl[i], "crash")
-		s.Case(sc.line("111"), impl[i], verdict[i] == "", class[i], nontriv, human)
+		s.Case(line, impl[i], ok, cls, nontriv, human)
+	}
+	// 1. cases nothing explains come first (the harness reports only the first mismatches)
+	for i := range scs {
+		c18ModelBuckets(hist, scs[i], model[i])
+		if (impl[i] != model[i] || verdict[i] != "") && class[i] == "" {
+			hist.Count("unexplained")
+			emit(i, scs[i].line("111"), "", verdict[i] == "")
+		}
+	}
+	// 2. a few representatives of each known defect, reported against the repaired model
+	reps := map[string]int{}
+	done := make([]bool, len(scs))
+	for i := range scs {
+		if class[i] != "" {
+			hist.Count("known:" + class[i])
+			if reps[class[i]] < 3 {
+				reps[class[i]]++
+				done[i] = true
+				emit(i, scs[i].line("111"), class[i], verdict[i] == "")
+			}
+		}
+	}
+	// 3. everything else: agreeing cases, and the remaining cases of the known classes, which are
+	// compared with the model of the code AS FOUND (the variant that reproduces them exactly)
+	for i := range scs {
+		switch {
+		case done[i] || ((impl[i] != model[i] || verdict[i] != "") && class[i] == ""):
+		case class[i] != "":
+			emit(i, scs[i].line(variant[i]), "", true)
+		default:
+			emit(i, scs[i].line("111"), "", true)
+		}
 	}
 }
 
@@ -1087,7 +1197,7 @@ func TestVerif_C18_call(t *testing.T) {
 	r := s.Rand()
 	hist := newC18Hist(s)
 	var scs []*c18Scenario
-	per := verifh.N(6, 60)
+	per := verifh.N(12, 80)
 	for code := 100; code <= 599; code++ {
 		for k := 0; k < per; k++ {
 			sc := &c18Scenario{entry: "dsvm"[r.Intn(4)], sT: r.Intn(4) != 0, eT: r.Intn(2) == 0, cE: r.Intn(2) == 0,
@@ -1137,8 +1247,12 @@ func TestVerif_C18_pipe(t *testing.T) {
 	var scs []*c18Scenario
 	// regression corpus: the witnesses of the defects found with this lane
 	scs = append(scs, c18Corpus()...)
-	n := verifh.N(7000, 150000)
+	n := verifh.N(25000, 300000)
 	for k := 0; k < n; k++ {
+		if k%40 == 7 {
+			scs = append(scs, c18GenStale(r))
+			continue
+		}
 		scs = append(scs, c18GenStack(r))
 	}
 	c18RunLane(t, s, hist, scs)
@@ -1173,6 +1287,6 @@ func c18Corpus() []*c18Scenario {
 		// digest: 401 then 200, success and error targets
 		{entry: 's', sT: true, eT: true, hook: true, autoRead: true, checker: c18Checkers[0],
 			transport: []c18TOut{{fail: -1, h: h401}},
-			reqResp: [][]c18Act{{{kind: "d", chalOK: true, re: c18TOut{fail: -1, h: ok200()}}}}},
+			reqResp:   [][]c18Act{{{kind: "d", chalOK: true, re: c18TOut{fail: -1, h: ok200()}}}}},
 	}
 }
